@@ -26,7 +26,6 @@
  */
 #include "verif.h"
 #include <errno.h>
-#include <stdarg.h>
 #include <sys/types.h>
 #include <sys/stat.h>
 #include <fcntl.h>
@@ -97,7 +96,20 @@ static unsigned long tick(void) { __CPROVER_assume(g_clock < (1ul << 40)); retur
 int *__errno_location(void) { return &g_errno; }
 
 /* ------------------------------------------------------------ system calls */
-int open(const char *name, int flags, ...) {
+/* open(2) and fcntl(2) are variadic.  dfcc binds its hidden write-set parameter to the first variadic argument of a call
+   that carries one (measured: the model then dereferences `mode` / `&info` as a write set and the run never finishes), so
+   the calls in the repository text are routed, by argument count, to fixed-arity models.  Nothing else is renamed. */
+int verif_open(const char *name, int flags, unsigned mode);
+int verif_fcntl(int fd, int cmd, const void *arg);
+#define VERIF_SEL3(a, b, c, NAME, ...) NAME
+#define VOPEN3(n, f, m) verif_open(n, f, m)
+#define VOPEN2(n, f) verif_open(n, f, 0)
+#define VFCNTL3(fd, c, a) verif_fcntl(fd, c, (const void *)(unsigned long)(a))
+#define VFCNTL2(fd, c) verif_fcntl(fd, c, NULL)
+#define open(...) VERIF_SEL3(__VA_ARGS__, VOPEN3, VOPEN2, 0)(__VA_ARGS__)
+#define fcntl(...) VERIF_SEL3(__VA_ARGS__, VFCNTL3, VFCNTL2, 0)(__VA_ARGS__)
+
+int verif_open(const char *name, int flags, unsigned mode) {
   __CPROVER_assert(g_fm_held, "the LOCK file is opened under the file mutex");
   __CPROVER_assert((flags & O_ACCMODE) == O_RDWR && (flags & O_CREAT), "the LOCK file is opened read-write and created if missing");
   __CPROVER_assert(g_open_ok == 0, "one descriptor per lock attempt");
@@ -126,14 +138,13 @@ int fstat(int fd, struct stat *st) {
   g_fstat_ok++;
   return 0;
 }
-int fcntl(int fd, int cmd, ...) {
-  va_list ap; struct flock *fl;
+int verif_fcntl(int fd, int cmd, const void *arg) {
+  const struct flock *fl = arg;
   if (cmd == F_GETFD) return 0;
   if (cmd == F_SETFD) return 0;
   __CPROVER_assert(cmd == F_SETLK, "record lock is requested without blocking (F_SETLK, never F_SETLKW)");
   __CPROVER_assert(fd == g_fd_new, "record lock call on the LOCK file's descriptor");
   __CPROVER_assert(g_fm_held, "record lock calls are made under the file mutex");
-  va_start(ap, cmd); fl = va_arg(ap, struct flock *); va_end(ap);
   __CPROVER_assert(fl->l_whence == SEEK_SET && fl->l_start == 0 && fl->l_len == 0, "the record lock covers the whole file");
   if (fl->l_type == F_WRLCK) {
     g_setlk_calls++;
